@@ -132,6 +132,13 @@ func (c *Collection) StartDCPFeed(
 	}
 
 	if args.Dump {
+		// A dump without backfill has not touched the database either: a closed handle is refused all the same.
+		c.bucket.mutex.Lock()
+		closed := c.bucket.closed || c.bucket.storeClosed.Load()
+		c.bucket.mutex.Unlock()
+		if closed {
+			return ErrBucketClosed
+		}
 		feed.events.push(nil) // push an eof
 	} else {
 		// Register the feed with the collection for future notifications:
